@@ -90,9 +90,9 @@ impl Executor for BashScriptExecutor {
             ExitStatus::Code(code) if code == skip_document_code => {
                 return Err(ExecutionError::Skipped(0));
             }
-            ExitStatus::Timeout(_) => {
+            ExitStatus::Timeout(_) | ExitStatus::Unknown => {
                 // a test case that ended with the skip code before the time ran
-                // out skips the document all the same
+                // out, or before the shell was killed, skips the document all the same
                 let mut skipped = None;
                 let _ = iterate_divided_output(
                     "STDOUT",
@@ -108,6 +108,12 @@ impl Executor for BashScriptExecutor {
                 if let Some(index) = skipped {
                     return Err(ExecutionError::Skipped(index));
                 }
+                if output.exit_code == ExitStatus::Unknown {
+                    return Err(ExecutionError::aborted(
+                        anyhow!("execution failed"),
+                        Some(output),
+                    ));
+                }
                 return Err(ExecutionError::Timeout(
                     ExecutionTimeout::Total,
                     vec![Output {
@@ -115,12 +121,6 @@ impl Executor for BashScriptExecutor {
                         stderr: remove_dividers_from_output(&output.stderr),
                         stdout: remove_dividers_from_output(&output.stdout),
                     }],
-                ));
-            }
-            ExitStatus::Unknown => {
-                return Err(ExecutionError::aborted(
-                    anyhow!("execution failed"),
-                    Some(output),
                 ));
             }
             _ => {}
